@@ -246,3 +246,49 @@ def write_evidence(ctx, coverage, violations, assumptions=None, level='proof'):
 def cleanup(ctx):
     import shutil
     shutil.rmtree(ctx.work, ignore_errors=True)
+
+
+def shrink_text(text, pred, max_calls=300):
+    """Greedy shrink of a failing text: delete whole lines, then chunks of characters, while
+    `pred(text)` stays true. Bounded number of predicate calls."""
+    calls = [0]
+
+    def ok(t):
+        calls[0] += 1
+        if calls[0] > max_calls:
+            return False
+        try:
+            return bool(pred(t))
+        except Exception:
+            return False
+    cur = text
+    lines = cur.split('\n')
+    n = len(lines)
+    step = max(1, n // 2)
+    while step >= 1 and calls[0] <= max_calls:
+        i = 0
+        changed = False
+        while i < len(lines) and calls[0] <= max_calls:
+            cand = lines[:i] + lines[i + step:]
+            if cand != lines and ok('\n'.join(cand)):
+                lines = cand
+                changed = True
+            else:
+                i += step
+        if not changed:
+            step //= 2
+    cur = '\n'.join(lines)
+    step = max(1, len(cur) // 2)
+    while step >= 1 and calls[0] <= max_calls:
+        i = 0
+        changed = False
+        while i < len(cur) and calls[0] <= max_calls:
+            cand = cur[:i] + cur[i + step:]
+            if cand != cur and ok(cand):
+                cur = cand
+                changed = True
+            else:
+                i += step
+        if not changed:
+            step //= 2
+    return cur
